@@ -44,9 +44,12 @@ Proof. destruct x as [rs o l c e]. cbn [rest]. intros ->. vm_compute. reflexivit
 Lemma space_step x r : rest x = 32%N :: r -> tok_step x (s "SPACE") None r.
 Proof. destruct x as [rs o l c e]. cbn [rest]. intros ->. unfold tok_step. cbn [errs]. solve_step. Qed.
 
-(* ------------------------------------------------------------------ brackets *)
-Definition type_in (tbl : list (str * str)) (c : N) : str := match assoc [c] tbl with Some ty => ty | None => [] end.
+Lemma tab_step x r : rest x = 9%N :: r -> tok_step x (s "TAB") None r.
+Proof. destruct x as [rs o l c e]. cbn [rest]. intros ->. unfold tok_step. cbn [errs]. solve_step. Qed.
+Lemma newline_step x r : rest x = 10%N :: r -> tok_step x (s "NEWLINE") None r.
+Proof. destruct x as [rs o l c e]. cbn [rest]. intros ->. unfold tok_step. cbn [errs]. solve_step. Qed.
 
+(* ------------------------------------------------------------------ brackets *)
 Lemma bracket_step x b r : chr_in b bracket_chars = true -> rest x = b :: r -> tok_step x (type_in brackets b) None r.
 Proof.
   intros Hb. apply chr_in_In in Hb. vm_compute in Hb.
@@ -72,12 +75,6 @@ Proof.
 Qed.
 
 (* ------------------------------------------------------------------ the listed constants, keywords, long operators and l/u names *)
-Definition atom_tok (w : str) : str * option str :=
-  match step nouni nouni (init (w ++ [32%N])) with
-  | StepItem (ITok t _ _) _ => (t_type t, t_val t)
-  | _ => ([], None)
-  end.
-
 Lemma atoms_are_guarded : atoms_guarded = true.
 Proof. vm_compute. reflexivity. Qed.
 
@@ -175,25 +172,30 @@ Proof.
 Qed.
 
 (* ------------------------------------------------------------------ every lexeme *)
-Lemma lexeme_step a r x : lexeme_ok a r = true -> rest x = lx_text a ++ r -> exists ty v, tok_step x ty v r.
+Lemma ident_token_type x w : t_type (ident_token x w) = match assoc w keywords with Some k => k | None => s "IDENTIFIER" end.
+Proof. unfold ident_token. destruct (assoc w keywords); reflexivity. Qed.
+
+Lemma lexeme_step a r x : lexeme_ok a r = true -> rest x = lx_text a ++ r -> exists v, tok_step x (lx_type a) v r.
 Proof.
-  destruct a as [c v| |o|b|w]; cbn [lexeme_ok lx_text]; intros H Hr.
+  destruct a as [c v| | | |o|b|w]; cbn [lexeme_ok lx_text lx_type]; intros H Hr.
   - apply andb_true_iff in H as [H Hb]. apply andb_true_iff in H as [Hc Hv].
-    eexists _, _. apply (ident_step x c v r Hc Hv Hr). unfold boundary. exact Hb.
-  - eexists _, _. apply (space_step x r). exact Hr.
+    eexists. rewrite <- (ident_token_type x). apply (ident_step x c v r Hc Hv Hr). unfold boundary. exact Hb.
+  - eexists. apply (space_step x r). exact Hr.
+  - eexists. apply (tab_step x r). exact Hr.
+  - eexists. apply (newline_step x r). exact Hr.
   - apply orb_true_iff in H as [H|H].
-    + eexists _, _. apply (op_plain_step x o r H Hr).
+    + eexists. apply (op_plain_step x o r H Hr).
     + apply andb_true_iff in H as [Ho Hd]. destruct r as [|d r]; [discriminate|]. cbn [first_in] in Hd.
-      eexists _, _. apply (op_multi_step x o d r Ho Hd Hr).
-  - eexists _, _. apply (bracket_step x b r H Hr).
+      eexists. apply (op_multi_step x o d r Ho Hd Hr).
+  - eexists. apply (bracket_step x b r H Hr).
   - apply andb_true_iff in H as [Hw Hd]. destruct r as [|d r].
-    + rewrite app_nil_r in Hr. eexists _, _. apply (atom_step_end x w Hw Hr).
-    + cbn [orb first_in] in Hd. eexists _, _. apply (atom_step x w d r Hw Hd Hr).
+    + rewrite app_nil_r in Hr. eexists. apply (atom_step_end x w Hw Hr).
+    + cbn [orb first_in] in Hd. eexists. apply (atom_step x w d r Hw Hd Hr).
 Qed.
 
 Lemma lexeme_nonempty a r : lexeme_ok a r = true -> lx_text a <> [].
 Proof.
-  destruct a as [c v| |o|b|w]; cbn [lexeme_ok lx_text]; try discriminate.
+  destruct a as [c v| | | |o|b|w]; cbn [lexeme_ok lx_text]; try discriminate.
   intros H. apply andb_true_iff in H as [Hw _]. now apply atoms_nonempty.
 Qed.
 
@@ -205,45 +207,77 @@ Proof.
 Qed.
 
 Definition is_tok (i : item) : bool := match i with ITok _ _ _ => true | _ => false end.
+Definition item_type (i : item) : str := match i with ITok t _ _ => t_type t | _ => [] end.
 
-(* ------------------------------------------------------------------ the induction over the line *)
+Lemma step_view_inv_ty x ty v r e : step_view x = Some (ty, v, r, e) ->
+  exists t lo hi x', step nouni nouni x = StepItem (ITok t lo hi) x' /\ rest x' = r /\ errs x' = e /\ t_type t = ty.
+Proof.
+  unfold step_view. destruct (step nouni nouni x) as [|[t lo hi|lo|lo hi] x'|ex]; try discriminate.
+  intros H. inversion H; subst. exists t, lo, hi, x'. repeat split.
+Qed.
+
+(* ------------------------------------------------------------------ the induction over the text *)
 Lemma lex_loop_silent : forall ls fuel x acc, chain ls = true -> rest x = render ls -> List.length ls < fuel ->
   forallb is_tok acc = true ->
   exists items xf, lex_loop nouni nouni fuel x acc = Ok (items, xf) /\ errs xf = errs x /\ rest xf = [] /\
-                   List.length items = List.length acc + List.length ls /\ forallb is_tok items = true.
+                   map item_type items = map item_type (rev acc) ++ map lx_type ls /\ forallb is_tok items = true.
 Proof.
   induction ls as [|a ls IH]; intros fuel x acc Hc Hr Hf Hacc; (destruct fuel as [|fuel]; [lia|]); cbn [lex_loop].
   - cbn [render] in Hr. rewrite (step_end x Hr). exists (rev acc), x. repeat split; try assumption.
-    + rewrite rev_length. cbn. lia.
+    + cbn [map]. now rewrite app_nil_r.
     + rewrite forallb_forall in *. intros i Hi. apply Hacc. now apply in_rev.
   - cbn [chain] in Hc. apply andb_true_iff in Hc as [Ha Hc]. cbn [render] in Hr.
-    destruct (lexeme_step a (render ls) x Ha Hr) as (ty & v & Hv).
-    destruct (step_view_inv x _ _ _ _ Hv) as (t & lo & hi & x' & Hst & Hrest & Herr). rewrite Hst.
+    destruct (lexeme_step a (render ls) x Ha Hr) as (v & Hv).
+    destruct (step_view_inv_ty x _ _ _ _ Hv) as (t & lo & hi & x' & Hst & Hrest & Herr & Hty). rewrite Hst.
     destruct (IH fuel x' (ITok t lo hi :: acc) Hc Hrest) as (items & xf & H1 & H2 & H3 & H4 & H5).
     + cbn [List.length] in Hf. lia.
     + cbn [forallb is_tok]. exact Hacc.
-    + exists items, xf. repeat split; try assumption; [congruence|]. cbn [List.length] in H4 |- *. lia.
+    + exists items, xf. repeat split; try assumption; [congruence|].
+      rewrite H4. cbn [rev map]. rewrite map_app. cbn [map item_type]. rewrite Hty, <- app_assoc. reflexivity.
 Qed.
 
-(* C01 (c), unbounded in the number of lexemes: a well-formed statement line is tokenized completely, into exactly one
-   token per lexeme, and the tokenizer records NO diagnostic (no lexical code can be reported on it) *)
-Theorem conforming_line_silent : forall ls, chain ls = true ->
+Lemma tokens_of_all_tok items : forallb is_tok items = true ->
+  map t_type (tokens_of items) = map item_type items /\ List.length (tokens_of items) = List.length items.
+Proof.
+  induction items as [|[t lo hi|lo|lo hi] items IH]; cbn [forallb is_tok]; try discriminate; [split; reflexivity|].
+  intros H. destruct (IH H) as [A B]. unfold tokens_of in *. cbn [flat_map app map item_type List.length]. now rewrite A, B.
+Qed.
+
+(* C01 (c), unbounded in the number of lexemes AND of lines: a well-formed text (statement lines with their indentation and
+   line ends) is tokenized completely, into exactly one token per lexeme, of the type `lx_type` says, and the tokenizer
+   records NO diagnostic (no lexical code can be reported on it) *)
+Theorem conforming_text_tokens : forall ls, chain ls = true ->
   exists items xf, lex nouni nouni (render ls) = Ok (items, xf) /\ errs xf = [] /\ rest xf = [] /\
-                   List.length items = List.length ls /\ forallb is_tok items = true.
+                   forallb is_tok items = true /\ map t_type (tokens_of items) = map lx_type ls.
 Proof.
   intros ls Hc. unfold lex.
   destruct (lex_loop_silent ls (S (List.length (render ls))) (init (render ls)) [] Hc eq_refl) as (items & xf & H1 & H2 & H3 & H4 & H5).
   - pose proof (chain_len ls Hc). lia.
   - reflexivity.
-  - exists items, xf. repeat split; assumption.
+  - exists items, xf. repeat split; try assumption. destruct (tokens_of_all_tok items H5) as [A _]. rewrite A, H4. reflexivity.
 Qed.
 
-(* non-vacuity: `a = -b + fn(c, 0x1F) * 'a';` and a control line *)
+Theorem conforming_line_silent : forall ls, chain ls = true ->
+  exists items xf, lex nouni nouni (render ls) = Ok (items, xf) /\ errs xf = [] /\ rest xf = [] /\
+                   List.length items = List.length ls /\ forallb is_tok items = true.
+Proof.
+  intros ls Hc. destruct (conforming_text_tokens ls Hc) as (items & xf & H1 & H2 & H3 & H4 & H5).
+  exists items, xf. repeat split; try assumption.
+  destruct (tokens_of_all_tok items H4) as [_ B]. rewrite <- B, <- (map_length t_type), H5. apply map_length.
+Qed.
+
+(* non-vacuity: `a = -b + fn(c, 0x1F) * 'a';`, a control line, and two indented lines with their line ends *)
 Definition ex_line1 : list lexeme :=
   [ident (s "a"); LSpace; LOp 61; LSpace; LOp 45; ident (s "b"); LSpace; LOp 43; LSpace; ident (s "fn"); LBracket 40; ident (s "c");
    LOp 44; LSpace; LAtom (s "0x1F"); LBracket 41; LSpace; LOp 42; LSpace; LAtom (qt ++ s "a" ++ qt); LOp 59].
 Definition ex_line2 : list lexeme :=
   [LAtom (s "while"); LSpace; LBracket 40; ident (s "i"); LSpace; LOp 60; LSpace; LAtom (s "len"); LSpace; LAtom (s "&&"); LSpace;
    LOp 33; ident (s "p"); LBracket 91; ident (s "i"); LBracket 93; LBracket 41].
-Example ex_lines_ok : chain ex_line1 = true /\ render ex_line1 = s "a = -b + fn(c, 0x1F) * 'a';" /\ chain ex_line2 = true /\ render ex_line2 = s "while (i < len && !p[i])".
+Definition ex_text3 : list lexeme := [LTab] ++ ex_line2 ++ [LNewline; LTab; LTab] ++ ex_line1 ++ [LNewline].
+Example ex_lines_ok : chain ex_line1 = true /\ render ex_line1 = s "a = -b + fn(c, 0x1F) * 'a';" /\
+  chain ex_line2 = true /\ render ex_line2 = s "while (i < len && !p[i])".
+Proof. vm_compute. repeat split. Qed.
+Example ex_text_ok : chain ex_text3 = true /\ kinds_ok ex_text3 = true /\
+  map lx_type ex_line2 = map s ["WHILE"; "SPACE"; "LPARENTHESIS"; "IDENTIFIER"; "SPACE"; "LESS_THAN"; "SPACE"; "IDENTIFIER"; "SPACE"; "AND";
+                               "SPACE"; "NOT"; "IDENTIFIER"; "LBRACKET"; "IDENTIFIER"; "RBRACKET"; "RPARENTHESIS"]%string.
 Proof. vm_compute. repeat split. Qed.
